@@ -50,7 +50,10 @@ LEVEL_TEXT = ("Lean 4 theorems (a) about the orientation tables translated from 
               "correspondence streams; in addition the end-to-end clauses (after legalize, at every Detailed callback, after "
               "placeDetailed) are checked by an independent orientation oracle on the real code for random circuits of the "
               "C01 domain with all polarities, odd/even row counts and all row-orientation patterns, under ASan/UBSan with "
-              "assertions on; an object-history stream repeats these checks along random sequences of public mutators and "
+              "assertions on -- four of these circuits in ten have their rows cut into segments of independently drawn orientations "
+              "(segments of one y prescribing different orientations) and/or listed in another order than bottom-up / left to right "
+              "(reversed, shuffled, bottom-up but right to left within a y, top-down, one adjacent pair exchanged; counters rows_*), the "
+              "oracle finding the segment under a cell by geometry; an object-history stream repeats these checks along random sequences of public mutators and "
               "legalize / placeDetailed calls on one Circuit object (several observations per object, the same one twice, "
               "observation -> one mutator -> same observation): after every call the oracle is evaluated against rows() as they "
               "are now, the result is compared with the same call on a freshly constructed circuit of identical observable "
